@@ -29,7 +29,7 @@ theorem inv_kqPush {d : Daemon} (h : Inv d) (i : Id) (hi : i ∈ d.conns) (he : 
   case hc => intro j; exact ⟨rfl, rfl, rfl⟩
   all_goals rfl
 
-theorem inv_clientData {d : Daemon} (h : Inv d) (i : Id) (k : Kind) : Inv (clientData d i k) := by
+theorem inv_clientData {d : Daemon} (h : Inv d) (i : Id) (k : Kind) (n : Nat) : Inv (clientData d i k n) := by
   unfold clientData
   dsimp only
   split
@@ -74,12 +74,22 @@ theorem inv_step {v : Variant} (hv : Fixed v) {d : Daemon} (h : Inv d) (o : Op)
   | send i =>
     simp only [step] at hr
     split at hr
-    · cases hr; exact inv_clientData h i _
+    · cases hr; exact inv_clientData h i _ _
     · cases hr
   | sendp i =>
     simp only [step] at hr
     split at hr
-    · cases hr; exact inv_clientData h i _
+    · cases hr; exact inv_clientData h i _ _
+    · cases hr
+  | sendn i k =>
+    simp only [step] at hr
+    split at hr
+    · cases hr; exact inv_clientData h i _ _
+    · cases hr
+  | slow i =>
+    simp only [step] at hr
+    split at hr
+    · cases hr; exact inv_set_iness h i _ rfl rfl rfl
     · cases hr
   | cclose i =>
     simp only [step] at hr
